@@ -9,8 +9,10 @@ import (
 	"berty.tech/go-ipfs-log/entry"
 	"berty.tech/go-orbit-db/internal/vstub"
 	"berty.tech/go-orbit-db/internal/vstubodb"
+	"berty.tech/go-orbit-db/stores/operation"
 	"github.com/ipfs/boxo/files"
 	"github.com/ipfs/boxo/path"
+	cid "github.com/ipfs/go-cid"
 	datastore "github.com/ipfs/go-datastore"
 )
 
@@ -176,5 +178,94 @@ func VerifC04Snapshot() {
 	}
 	if x, ok := r.OpLog().Get(victim.GetHash()); ok {
 		vstub.Assert(string(x.GetPayload()) == string(victim.GetPayload()), "C04 the impersonated entry keeps its genuine content")
+	}
+}
+
+// VerifC04SnapshotAfterReject: a TAMPERED ancestor that live replication rejected
+// stays reachable from a valid head's links and sits in the local block store.  The
+// replica saves a snapshot of what it holds, restarts, and a fresh (empty) store
+// loads the snapshot - which rebuilds the log by following the heads' links.  The
+// tampered entry is not merged on that route either.
+func VerifC04SnapshotAfterReject() {
+	blocks := vstub.NewBlocks(nil)
+	prov := vstub.NewProvider()
+	w := vstub.NewIdentity("w", prov)
+	ac := vstubodb.Writers(vstub.IDOf("a"), vstub.IDOf("w"))
+	envA := vstubodb.NewEnv("a", 1, "db", blocks, nil)
+	optsA := envA.Options(false)
+	optsA.AccessController = ac
+	a := &c13Store{}
+	if err := a.InitBaseStore(envA.IPFS, envA.Identity, envA.Addr, optsA); err != nil {
+		vstub.Fail("InitBaseStore failed")
+		return
+	}
+	ctx := context.Background()
+	lw, e1 := appendAs(envA, nil, a.id, w, []byte("e1"))
+	if e1 == nil {
+		return
+	}
+	_, victim := appendAs(envA, lw, a.id, w, []byte("genuine"))
+	if victim == nil {
+		return
+	}
+	t := victim.Copy()
+	switch vstub.NdChoice("field", 4) {
+	case 0:
+		t.SetPayload([]byte("tampered"))
+	case 1:
+		nt := vstub.NdInt("newTime")
+		vstub.Assume(nt != victim.GetClock().GetTime() && nt > 0 && nt < 9)
+		t.SetClock(entry.NewLamportClock(victim.GetClock().GetID(), nt))
+	case 2:
+		t.SetSig([]byte("garbage"))
+	case 3:
+		t.SetPayload(append([]byte{vstub.NdByte("newPayload")}, victim.GetPayload()...))
+	}
+	if readdress(envA, t) == nil {
+		return
+	}
+	if vstub.NdChoice("own-write-first", 2) == 1 {
+		if _, err := a.AddOperation(ctx, operation.NewOperation(nil, "ADD", []byte("own")), nil); err != nil {
+			vstub.Fail("C04 AddOperation failed")
+			return
+		}
+	}
+	top, err := entry.CreateEntryWithIO(ctx, envA.IPFS, w, &entry.Entry{
+		LogID: a.id, Payload: []byte("top"), Next: []cid.Cid{t.GetHash()}, Refs: []cid.Cid{e1.GetHash()},
+		Clock: entry.NewLamportClock(w.PublicKey, 9),
+	}, nil, envA.IO)
+	if err != nil {
+		vstub.Fail("C04 CreateEntryWithIO failed")
+		return
+	}
+	_ = a.Sync(ctx, []ipfslog.Entry{top.Copy()})
+	vstub.WaitIdle()
+	vstub.Assert(!inLog(&a.BaseStore, t), "C04 live replication does not merge the tampered ancestor")
+	if a.OpLog().Len() == 0 {
+		return // nothing was merged at all: nothing to snapshot
+	}
+	vstub.Cover("rejected-live")
+	if _, err := SaveSnapshot(ctx, a); err != nil {
+		vstub.Cover("save-refused")
+		return
+	}
+	_ = a.Close()
+	vstub.WaitIdle()
+	envR := vstubodb.NewEnv("a", 1, "db", blocks, nil)
+	envR.Cache = envA.Cache
+	envR.IPFS.Files = envA.IPFS.Files
+	optsR := envR.Options(false)
+	optsR.AccessController = ac
+	r := &c13Store{}
+	if err := r.InitBaseStore(envR.IPFS, envR.Identity, envR.Addr, optsR); err != nil {
+		vstub.Fail("InitBaseStore failed")
+		return
+	}
+	_ = r.LoadFromSnapshot(ctx) // may report an error
+	vstub.WaitIdle()
+	vstub.Cover("snapshot-loaded-after-restart")
+	vstub.Assert(!inLog(&r.BaseStore, t), "C04 a tampered ancestor that live replication rejected is not merged from a snapshot of the same replica either")
+	for _, e := range r.OpLog().Values().Slice() {
+		vstub.Assert(string(e.GetPayload()) != "tampered", "C04 the tampered payload is nowhere in the log after loading the snapshot")
 	}
 }
